@@ -19,13 +19,13 @@ CHECK = {
     "harness": ["actor/zz_verif_c29.go", "internal/remoteclient/zz_verif_c29.go"],
     "entries": [
         {"fn": C + "vC29_inject", "replay": MO, "cases": {"headers": [0, 1, 2]}, "cover_optional": ("none",)},
-        {"fn": A + "vC29_batch", "replay": MO, "cases": {"headers0": [0, 1, 2], "headers1": [0, 1, 2]}, "cover_optional": ("both-callers-with-headers",)},
-        {"fn": A + "vC29_single", "replay": MO, "cases": {"headers0": [0, 1, 2]}},
+        {"fn": A + "vC29_batch", "replay": MO, "cases_quick": {"headers": [2, 4, 6, 8]}, "cases_thorough": {"headers": [0, 1, 2, 3, 4, 5, 6, 7, 8]}, "cover_optional": ("both-callers-with-headers",)},
+        {"fn": A + "vC29_single", "replay": MO, "cases_quick": {"headers0": [0, 2]}, "cases_thorough": {"headers0": [0, 1, 2]}},
         {"fn": A + "vC29_respelled", "replay": MO},
     ],
     "opts": {"unwind": 16, "substitute": SUBST},
     "explanation": "",
     "bounds": {},
     "assumptions": [],
-    "timeout_ms": {"quick": 400000, "thorough": 1800000},
+    "timeout_ms": {"quick": 900000, "thorough": 1800000},
 }
